@@ -21,6 +21,42 @@
 (defn- ev [form]
   (eval form))
 
+# Canonical text of a value, same format as prelude `canon`, but struct keys are taken from the
+# physical slots (verif/table-info) instead of `next`: on a struct whose layout is corrupt `next`
+# may cycle for ever, and the check must report such a struct, not hang on it.
+(defn- type-rank [x]
+  (case (type x)
+    :nil 0 :boolean 1 :number 2 :string 3 :symbol 4 :keyword 5
+    :tuple 6 :struct 7 :buffer 8 :array 9 :table 10 11))
+
+(varfn ccanon [x] "")
+
+(defn- struct-canon [x]
+  (def b @"{")
+  (def ks (seq [k :in ((verif/table-info x) :order)] [(type-rank k) (ccanon k) k]))
+  (sort ks (fn [a b] (if (= (a 0) (b 0)) (< (a 1) (b 1)) (< (a 0) (b 0)))))
+  (var first true)
+  (each [_ kt k] ks
+    (if first (set first false) (buffer/push b " "))
+    (buffer/push b kt " " (ccanon (struct/rawget x k))))
+  (buffer/push b "}")
+  (when-let [p (struct/getproto x)]
+    (buffer/push b "^" (ccanon p)))
+  (string b))
+
+(varfn ccanon [x]
+  (case (type x)
+    :struct (struct-canon x)
+    :tuple (let [b @""]
+             (buffer/push b (if (= :brackets (tuple/type x)) "[" "("))
+             (var first true)
+             (each v x (if first (set first false) (buffer/push b " ")) (buffer/push b (ccanon v)))
+             (buffer/push b (if (= :brackets (tuple/type x)) "]" ")"))
+             (string b))
+    :table (string "<table " (verif/addr x) ">")
+    :array (string "<array " (verif/addr x) ">")
+    (canon x)))
+
 (defn- layout [v]
   (if (struct? v)
     (let [ti (verif/table-info v)]
@@ -33,7 +69,7 @@
     (let [ti (verif/table-info v)
           b @""]
       (each k (ti :order)
-        (buffer/push b (canon k) "=>" (canon (struct/rawget v k)) ","))
+        (buffer/push b (ccanon k) "=>" (ccanon (struct/rawget v k)) ","))
       (string b))
     "-"))
 
@@ -110,7 +146,7 @@
   (for i 0 n (buffer/push out (layout-order (in vals i)) SEP2))
   (buffer/push out SEP1)
   (when want-canon
-    (for i 0 n (buffer/push out (canon (in vals i)) SEP2)))
+    (for i 0 n (buffer/push out (ccanon (in vals i)) SEP2)))
   (buffer/push out SEP1)
   (defn pair [i j]
     (def x (in vals i))
